@@ -118,7 +118,11 @@ impl ModelGen {
     }
     pub fn arith(&self, r: &mut Rng, d: &[VarDecl], depth: usize) -> Exp {
         if depth == 0 || r.chance(2, 5) { return self.affine(r, d); }
-        match r.below(9) {
+        match r.below(10) {
+            // abs of something whose sign the analyser can know (a non-affine block shifted far from zero): the shortcut arms
+            9 => { let inner = match r.below(3) { 0 => Exp::Max(vec![self.affine(r, d), self.affine(r, d)]), 1 => Exp::Min(vec![self.affine(r, d), self.affine(r, d)]), _ => Exp::Abs(b(self.affine(r, d))) };
+                   let k = num(*r.pick(&[40.0, 25.0, 60.0]));
+                   Exp::Abs(b(match r.below(3) { 0 => bin(BinOp::Sub, inner, k), 1 => bin(BinOp::Add, inner, k), _ => bin(BinOp::Sub, k, inner) })) }
             0 | 1 => Exp::Abs(b(self.arith(r, d, depth - 1))),
             2 => Exp::Max((0..2 + r.below(2)).map(|_| self.arith(r, d, depth - 1)).collect()),
             3 => Exp::Min((0..2 + r.below(2)).map(|_| self.arith(r, d, depth - 1)).collect()),
